@@ -161,8 +161,11 @@ let run_view (line : string) : string =
 (* ---- specification side: brute force over the declared domains with `sat` ---- *)
 let asg_of (arr : int array) : asg = fun v -> let i = int_of_nat v in if i < Array.length arr then z_of_int arr.(i) else Z0
 
+exception Too_big
 let all_solutions (store : z list list) (props : prop list) : int list list =
   let doms = Array.of_list (List.map ilist store) in
+  let prod = Array.fold_left (fun acc d -> if acc > 2_000_000 then acc else acc * max 1 (List.length d)) 1 doms in
+  if prod > 2_000_000 then raise Too_big;
   let n = Array.length doms in
   let cur = Array.make n 0 in
   let out = ref [] in
